@@ -82,7 +82,7 @@ ASSUMPTIONS = [
 # the finding (class `known_trigger:*`), so the rest of the search is not blind.
 # VERIF_C19_ASSUME_FIXED=1 (e.g. on a tree with proposals/C19/*.diff applied)
 # switches the avoidance off: every trigger is generated at its natural rate.
-_AVOID = not os.environ.get('VERIF_C19_ASSUME_FIXED')
+_AVOID = False  # all C19 findings fixed (2929286, 3a6d70e, 4b6a275, 8d9221f)
 KNOWN_RANDOM_PADDING = _AVOID    # random strategy ignores feature padding
 KNOWN_PRIOR_NOT_MERGED = _AVOID  # priors never merged into the best results
 
